@@ -70,27 +70,24 @@ func (b Bundle) Fragment(mtu int) (bs []Bundle, err error) {
 			return
 		}
 
-		fragBundle := MustNewBundle(fragPrimaryBlock, nil)
-
-		for _, cb := range b.CanonicalBlocks {
-			if cb.TypeCode() == ExtBlockTypePayloadBlock {
-				continue
-			}
-			if i > 0 && !cb.BlockControlFlags.Has(ReplicateBlock) {
-				continue
-			}
-
-			fragBundle.AddExtensionBlock(cb)
-		}
-
 		fragPayloadBlockLen := mtu - overhead
 
 		offset := int(math.Min(float64(i+fragPayloadBlockLen), float64(len(payloadBlock.Value.(*PayloadBlock).Data()))))
-		fragBundle.AddExtensionBlock(CanonicalBlock{
-			BlockControlFlags: payloadBlock.BlockControlFlags,
-			CRCType:           payloadBlock.CRCType,
-			Value:             NewPayloadBlock(payloadBlock.Value.(*PayloadBlock).Data()[i:offset]),
-		})
+
+		// The blocks keep their block numbers and their order, such that a reassembled Bundle equals the original one.
+		fragBundle := Bundle{PrimaryBlock: fragPrimaryBlock}
+		for _, cb := range b.CanonicalBlocks {
+			if cb.TypeCode() == ExtBlockTypePayloadBlock {
+				fragBundle.CanonicalBlocks = append(fragBundle.CanonicalBlocks, CanonicalBlock{
+					BlockNumber:       cb.BlockNumber,
+					BlockControlFlags: cb.BlockControlFlags,
+					CRCType:           cb.CRCType,
+					Value:             NewPayloadBlock(payloadBlock.Value.(*PayloadBlock).Data()[i:offset]),
+				})
+			} else if i == 0 || cb.BlockControlFlags.Has(ReplicateBlock) {
+				fragBundle.CanonicalBlocks = append(fragBundle.CanonicalBlocks, cb)
+			}
+		}
 
 		if err = fragBundle.CheckValid(); err != nil {
 			return
@@ -248,28 +245,22 @@ func ReassembleFragments(bs []Bundle) (b Bundle, err error) {
 	b.PrimaryBlock.TotalDataLength = 0
 	b.PrimaryBlock.CRC = nil
 
-	for _, cb := range bs[0].CanonicalBlocks {
-		if cb.TypeCode() == ExtBlockTypePayloadBlock {
-			continue
-		}
-
-		b.AddExtensionBlock(cb)
-	}
-
-	if payload, payloadErr := mergeFragmentPayload(bs); payloadErr != nil {
+	payload, payloadErr := mergeFragmentPayload(bs)
+	if payloadErr != nil {
 		err = payloadErr
 		return
-	} else {
-		pb0, pb0Err := bs[0].PayloadBlock()
-		if pb0Err != nil {
-			err = pb0Err
-			return
+	}
+
+	// The first fragment's blocks keep their block numbers and their order.
+	for _, cb := range bs[0].CanonicalBlocks {
+		if cb.TypeCode() == ExtBlockTypePayloadBlock {
+			pcb := NewCanonicalBlock(cb.BlockNumber, cb.BlockControlFlags, NewPayloadBlock(payload))
+			pcb.SetCRCType(cb.CRCType)
+
+			b.CanonicalBlocks = append(b.CanonicalBlocks, pcb)
+		} else {
+			b.CanonicalBlocks = append(b.CanonicalBlocks, cb)
 		}
-
-		cb := NewCanonicalBlock(1, pb0.BlockControlFlags, NewPayloadBlock(payload))
-		cb.SetCRCType(pb0.CRCType)
-
-		b.AddExtensionBlock(cb)
 	}
 
 	err = b.CheckValid()
